@@ -792,9 +792,92 @@ theorem parse_append_section {old x : Str} {st : PSt} {ks : List Key} {n p s : S
   rw [← hk]
   exact parse_of this hfd h3
 
+/-! ### H. a whole keyring written section by section -/
+
+/-- the entry `key generate` stores for (name, public key, locked private key) -/
+def entryKey (e : Str × Str × Str) : Key := ⟨e.1, e.2.1, some e.2.2⟩
+
 theorem closesTo_of_parse {t : Str} {ks : List Key} (h : parse t = some ks) :
-    ∃ st, parseLines {} (lines t) = some st ∧ ClosesTo st ks := by
+    ∃ st, parseLines {} (lines t) = some st ∧ ClosesTo st ks ∧ st.found = true := by
   obtain ⟨st, st', h1, h2, h3, h4⟩ := parse_some h
-  exact ⟨st, h1, Or.inr ⟨h2, st', h3, h4⟩⟩
+  exact ⟨st, h1, Or.inr ⟨h2, st', h3, h4⟩, h2⟩
+
+theorem parse_of_closesTo {t : Str} {st : PSt} {ks : List Key} (h1 : parseLines {} (lines t) = some st)
+    (hc : ClosesTo st ks) (hf : st.found = true) : parse t = some ks := by
+  rcases hc with ⟨hnf, _⟩ | ⟨_, st', ha, hk⟩
+  · rw [hf] at hnf; exact absurd hnf (by simp)
+  · rw [← hk]; exact parse_of h1 hf ha
+
+theorem serializeKey_ends_nl (n p s : Str) : ∃ a, serializeKey n p s = a ++ ['\n'] :=
+  ⟨_, rfl⟩
+
+/-- the text written by successive generations, each preceded by "" or "\n" -/
+def written (seps : List Str) (es : List (Str × Str × Str)) : Str :=
+  (List.zipWith (fun sep e => sep ++ serializeKey e.1 e.2.1 e.2.2) seps es).flatten
+
+theorem parse_written_gen (es : List (Str × Str × Str)) : ∀ (seps : List Str) (pre : Str) (st : PSt) (ks : List Key),
+    seps.length = es.length → (∀ x ∈ seps, x = [] ∨ x = ['\n']) →
+    (∀ e ∈ es, ValidEntry e.1 e.2.1 e.2.2) → (es.map (·.1)).Nodup → (es.map (·.2.1)).Nodup →
+    (∀ k ∈ ks, ∀ e ∈ es, k.name ≠ e.1 ∧ k.pk ≠ e.2.1) →
+    (pre = [] ∨ ∃ a, pre = a ++ ['\n']) → parseLines {} (lines pre) = some st → ClosesTo st ks →
+    (es ≠ [] ∨ st.found = true) →
+    parse (pre ++ written seps es) = some (ks ++ es.map entryKey) := by
+  induction es with
+  | nil =>
+    intro seps pre st ks _ _ _ _ _ _ _ hp hc hf
+    have hf : st.found = true := by
+      rcases hf with h | h
+      · exact absurd rfl h
+      · exact h
+    simp only [written, List.zipWith_nil_right, List.flatten_nil, List.append_nil, List.map_nil]
+    exact parse_of_closesTo hp hc hf
+  | cons e es ih =>
+    intro seps pre st ks hlen hsep hv hN hP hfr hpre hp hc _
+    cases seps with
+    | nil => simp at hlen
+    | cons sep seps =>
+      have hj : Junction pre sep := by
+        rcases hsep sep (List.mem_cons_self ..) with rfl | rfl
+        · rcases hpre with rfl | ⟨a, rfl⟩
+          · exact junction_nil
+          · exact junction_after_nl a
+        · exact junction_nl pre
+      have hve := hv e (List.mem_cons_self ..)
+      have h1 := parse_append_section hj hp hc hve (fun k hk => hfr k hk e (List.mem_cons_self ..))
+      obtain ⟨st', hp', hc', hf'⟩ := closesTo_of_parse h1
+      have e1 : pre ++ written (sep :: seps) (e :: es) =
+          (pre ++ sep ++ serializeKey e.1 e.2.1 e.2.2) ++ written seps es := by
+        simp only [written, List.zipWith_cons_cons, List.flatten_cons, List.append_assoc]
+      rw [e1]
+      simp only [List.map_cons, List.nodup_cons, List.mem_map, not_exists, not_and] at hN hP
+      have := ih seps _ st' (ks ++ [entryKey e]) (by simpa using hlen)
+        (fun x hx => hsep x (List.mem_cons_of_mem _ hx)) (fun e' he' => hv e' (List.mem_cons_of_mem _ he'))
+        hN.2 hP.2 ?_ ?_ hp' hc' (Or.inr hf')
+      · rw [this]; simp
+      · intro k hk e' he'
+        simp only [List.mem_append, List.mem_singleton] at hk
+        rcases hk with hk | rfl
+        · exact hfr k hk e' (List.mem_cons_of_mem _ he')
+        · exact ⟨fun h => hN.1 e' he' h.symm, fun h => hP.1 e' he' h.symm⟩
+      · right
+        obtain ⟨a, ha⟩ := serializeKey_ends_nl e.1 e.2.1 e.2.2
+        exact ⟨pre ++ sep ++ a, by rw [ha, List.append_assoc (pre ++ sep)]⟩
+
+/-! ### I. concrete data for non-vacuity examples: the keys of the Rust unit test (`KEYRING_INI`) -/
+
+def alicePk : Str := "D7ZZstGYF6okKKEV2rwoUza/tK3iUa8IMY+l5tuirmzzkEog".toList
+def aliceSk : Str :=
+  "ZWdrMPEp09tKN3rAutCDQTshrNqoh0MLPnEERRCm5KFxvXcTo+s/Sf2ze0fKebVsQilImvLzfIHRcJuX8kGetyAQL1VchvzHR28vFhdKeq+NY2KT".toList
+def bobPk : Str := "CT/e0R9tbBjTYUhDNnNxltT3LLWZLHwW4DCY/WHxBA8am9vP".toList
+
+theorem alicePk_ok : encodedPkOk alicePk = true := by decide
+theorem bobPk_ok : encodedPkOk bobPk = true := by decide
+theorem aliceSk_ok : encodedSkOk aliceSk = true := by decide
+
+theorem validEntry_alice : ValidEntry "alice".toList alicePk aliceSk :=
+  ⟨by decide, by decide, by decide, alicePk_ok, aliceSk_ok⟩
+
+theorem validEntry_bob : ValidEntry "Bobby Bobertson".toList bobPk aliceSk :=
+  ⟨by decide, by decide, by decide, bobPk_ok, aliceSk_ok⟩
 
 end Kestrel.KR
